@@ -8,6 +8,7 @@ C08_reorder_without_removal_reachable
 C08_restrict_preserves_typing C08_repeat_preserves_typing C08_wf_implies_okT C08_wf_mergeSafe C08_wf_restrict_typing
 C08_pus_exact C08_merge_keeps_nonnormal C08_numa_survive C08_numas_exact_bynodeset C08_pu_survive_bynodeset
 C08_merge_keeps_pus C08_pus_exact_whole C08_pu_survive_bynodeset_whole C08_restrict_leaf_root C08_repeat_leaf_root C08_render_top C08_render_children_counts C08_render_levels_cover C08_render_type_depth_inverse C08_render_sets C08_setsPres C08_restrict_wf_partial C08_restrict_numa_exists C08_restrict_from_wf_partial
+C08_render_pu_level_last C08_render_pu_level C08_restrict_pu_level C08_restrict_keeps_pu_and_numa C08_restrict_protected_exists C08_wf_has_pu_and_numa C08_restrict_from_wf_levels_partial C08_restrict_other_kind_protected C08_restrict_allowed_sets C08_restrict_from_wf_top_partial C08_restrict_unique C08_restrict_wf_top_partial C08_restrict_type_filter C08_wf_cover_pu C08_treeOf_not_from_wf
 C08_side_distances C08_side_distances_types_aligned C08_side_distances_repeat C08_side_cpukinds C08_side_memattrs""".split()]
 CHECK_MODULES = ["Hw.Props.C08"]
 TRUSTED = ["hwloc_bitmap_not / andnot / intersects / isincluded / iszero / set / compare_first enter the model through their "
